@@ -20,6 +20,13 @@ RULE = (
     "names, defaults, descriptions) with the expectation computed on the schema IR, checks that hidden "
     "names are absent from the introspection answer and rejected by validation, and that the source's "
     "description, identity map, printed SDL and the result of a sample query are unchanged. "
+    ""
+    "Sources register a third of their resolvers through Schema.register_resolver and half of "
+    "them carry a schema-wide default resolver; a third of the types are instances of subclasses; "
+    "only SchemaValidationError may refuse a transform; the closure invariant covers the argument "
+    "maps of directives and fields; a copy that has served a pre-parsed document is transformed "
+    "in place (visibility, camel-casing) and must answer the same Document like a fresh "
+    "clone-based transform.  "
     "Non-trivial = distinct operation sequence of length >= 2, or one that removes or renames an element."
 )
 ASSUMPTIONS = ["expected results of visibility filtering follow the class docstring (direct and indirect removals)",
